@@ -40,7 +40,7 @@ ASSUMPTIONS = ["X25519, HMAC and HKDF in ipv8_rust_tunnels are trusted",
                "an adversary substituting its own ephemeral key with a correct HMAC makes the originator accept a hop nobody can "
                "use; that is a broken circuit, not a key compromise, and is not flagged (the statement only forbids giving "
                "anyone else accepted keys)"]
-REACH = ["hop_appended_honest", "keys_equal_checked", "retry_happened", "late_answer_ignored", "dup_answer", "fault:flip_key",
+REACH = ["hop_appended_honest", "keys_equal_checked", "retry_happened", "answer_ignored_by_originator", "dup_answer", "fault:flip_key",
          "fault:flip_auth", "fault:flip_ident", "fault:flip_cid", "fault:flip_cand", "fault:swap_ident", "fault:swap_cid",
          "fault:replay_old", "fault:subst_key", "crafted_answer_rejected", "subst_accepted_but_underivable", "hops:3"]
 
@@ -98,6 +98,7 @@ def execute(case: dict) -> dict:  # noqa: C901, PLR0915
     faults = list(case.get("faults", []))
     who = case.get("who")
     crafted: dict = {}          # pkt id -> kind
+    crafted_data: dict = {}     # datagram bytes -> kind
     craft_now: list = [None]
     selections: dict = {}       # (originator node, circuit id) -> last selected public key
     appended: list = []         # events
@@ -111,15 +112,21 @@ def execute(case: dict) -> dict:  # noqa: C901, PLR0915
     def on_send(pkt, fate) -> None:  # noqa: ANN001
         if craft_now[0] is not None:
             crafted[pkt.id] = craft_now[0]
+            crafted_data[pkt.data] = craft_now[0]
     net.on_send.append(on_send)
 
-    def chain_kinds(cause) -> list:  # noqa: ANN001
+    def chain_kinds(cause, onode) -> list:  # noqa: ANN001
+        """Manipulations on the way of THIS answer: walk back only to the originator's own request that it answers."""
         out = []
         seen = 0
         while isinstance(cause, int) and cause in tw.by_id and seen < 8:
             p = tw.by_id[cause]
+            if p.src_node == onode:
+                break
             if p.id in crafted:
                 out.append(crafted[p.id])
+            elif p.data in crafted_data:        # a network-level duplicate of a manipulated datagram
+                out.append(crafted_data[p.data])
             cause = p.cause
             seen += 1
         return out
@@ -144,7 +151,13 @@ def execute(case: dict) -> dict:  # noqa: C901, PLR0915
 
     def add_hop(self, hop) -> None:  # noqa: ANN001
         onode = NODE.get()
-        kinds = chain_kinds(CAUSE.get())
+        kinds = chain_kinds(CAUSE.get(), onode)
+        import os
+        if os.environ.get("C08_DEBUG"):
+            cz = CAUSE.get(); out = []
+            while isinstance(cz, int) and cz in tw.by_id and len(out) < 8:
+                p = tw.by_id[cz]; out.append((p.id, p.src_node, p.label, p.id in crafted, p.data in crafted_data, p.orig is not None)); cz = p.cause
+            print("APPEND", onode, self.circuit_id, len(self.hops), "cause", CAUSE.get(), out, "crafted ids", list(crafted))
         snap = snapshots.setdefault(id(self), [])
         # (2) established hops never change
         for i, (pk, kb) in enumerate(snap):
@@ -159,11 +172,6 @@ def execute(case: dict) -> dict:  # noqa: C901, PLR0915
         if sel is not None and sel != hop.public_key_bin:
             c.violate("hop_is_selected_peer", "appended_hop_is_not_the_selected_peer",
                       f"circuit {self.circuit_id} hop {idx + 1}: appended {hop.public_key_bin.hex()[-12:]}, selected {sel.hex()[-12:]}")
-        bad = [k for k in kinds if k in ("flip_ident", "swap_ident", "flip_cid", "swap_cid", "replay_old")]
-        if bad:
-            c.violate("answer_must_match_request", f"mismatched_answer_appended_hop:{bad[0]}",
-                      f"an answer manipulated by {bad} (wrong identifier / circuit / attempt) made the originator append hop {idx + 1}")
-            return
         node, entry, why = trace(self, idx)
         adv = tw.nodes[1]
         if "subst_key" in kinds:
@@ -174,8 +182,10 @@ def execute(case: dict) -> dict:  # noqa: C901, PLR0915
             for eph, opub in adv_secrets:
                 try:
                     s1 = eph.diffie_hellman(opub)
-                    cands = [s1 + adv.key.diffie_hellman(opub), s1 + s1, s1]
-                    cands += [s1 + n.key.diffie_hellman(opub) for n in tw.nodes if who == "node" and n is adv]
+                    # what the adversary can compute: its ephemeral share, plus (misbehaving node only) its own static share
+                    cands = [s1 + s1, s1]
+                    if who == "node":
+                        cands.append(s1 + adv.key.diffie_hellman(opub))
                 except Exception:  # noqa: BLE001
                     continue
                 for sh in cands:
@@ -188,12 +198,15 @@ def execute(case: dict) -> dict:  # noqa: C901, PLR0915
             world.probe("subst_accepted_but_underivable")
             c.nontrivial(f"subst_accepted/{hops}/{idx}/{who}")
             return
-        if kinds:
-            # (4) other manipulated answers: rejected, or both ends agree
-            if entry is None or kbytes(entry.hop.keys) != kbytes(hop.keys):
-                c.violate("manipulated_answer", f"manipulated_answer_accepted_with_differing_keys:{kinds[0]}",
-                          f"answer manipulated by {kinds} was accepted for hop {idx + 1} but the selected peer holds "
-                          f"{'no entry' if entry is None else 'other keys'} ({why})")
+        if kinds or faults:
+            # (4) manipulated answers - and anything that happens later in a run with manipulated answers (e.g. a retry through
+            # another first hop after a corrupted candidate list): rejected, or the selected peer holds identical keys
+            holder = tw.node_of_key(hop.public_key_bin)
+            entries = [] if holder is None else list(holder.ov.exit_sockets.values()) + list(holder.ov.relay_from_to.values())
+            if not any(kbytes(e.hop.keys) == kbytes(hop.keys) for e in entries):
+                c.violate("manipulated_answer", f"accepted_hop_keys_not_held_by_selected_peer:{(kinds or ['later'])[0]}",
+                          f"hop {idx + 1} of circuit {self.circuit_id} accepted (manipulations on this answer: {kinds}) but the "
+                          f"selected peer {holder.name if holder else None} holds no entry with these session keys")
             return
         # (1) honest exchange
         world.probe("hop_appended_honest")
@@ -208,7 +221,8 @@ def execute(case: dict) -> dict:  # noqa: C901, PLR0915
                       f"route leads to at {node.name} (exit_sockets/relay id traced through the relays)")
         else:
             world.probe("keys_equal_checked")
-            c.nontrivial(f"ok/{hops}/{idx}/{bool(case['knobs'].get('loss') or case['knobs'].get('dup'))}")
+            c.nontrivial(f"ok/{hops}/{idx}/{case['nht']}/{case['knobs'].get('loss')}/{case['knobs'].get('dup')}/"
+                         f"{case['knobs'].get('tail_p')}/{case['knobs'].get('lat_jit')}/{len(appended)}")
     Circuit.add_hop = add_hop
     seams.ON_RESET.append(lambda: setattr(Circuit, "add_hop", orig_add_hop))
 
@@ -376,7 +390,9 @@ def execute(case: dict) -> dict:  # noqa: C901, PLR0915
             adv_secrets.append((eph, opub))
         crafted[pkt.id] = kind
         body = b"\x03" + struct.pack(">H", ident) + struct.pack(">H", len(key)) + key + auth + cand
-        return pkt.data[:23] + struct.pack("!I", ncid) + pkt.data[27:29] + body
+        out = pkt.data[:23] + struct.pack("!I", ncid) + pkt.data[27:29] + body
+        crafted_data[out] = kind
+        return out
 
     async def main() -> None:
         await tw.build()
@@ -413,6 +429,10 @@ def execute(case: dict) -> dict:  # noqa: C901, PLR0915
         retries = sum(1 for p in tw.wire if p.label in ("CreatePayload", "ExtendPayload") and p.src_node == o.name)
         if retries > sum(1 for ci in circs if ci is not None) * hops:
             world.probe("retry_happened")
+        answers_at_o = sum(1 for p in tw.wire if p.label in ("CreatedPayload", "ExtendedPayload") and p.dst == o.address
+                           and p.fate == "ok")
+        if answers_at_o > len(appended):
+            world.probe("answer_ignored_by_originator", answers_at_o - len(appended))
         st["ready"] = sum(1 for ci in circs if ci is not None and ci.state == "READY")
         # final immutability check
         for ci in circs:
